@@ -170,8 +170,8 @@ func (c *conn) receive() (err error) {
 		err = core.InvalidResponseError{}
 		return
 	}
-	body := make([]byte, length)
-	if _, err = io.ReadAtLeast(c.Conn, body, length); err != nil {
+	body, err := readBody(c.Conn, length)
+	if err != nil {
 		return
 	}
 	if !ok {
